@@ -114,6 +114,15 @@ def run_branch(unit, text, cond, body, src_id, outer_env=None):
             v = ev.ev(args[0])
             ch = chr(v) if 0 < v < 128 else ""
             return 1 if ch and getattr(ch, name)() else 0
+        # a helper of the unit: evaluated in place (its locals count as locals of the branch)
+        d = A.callee_decl(n)
+        for q, fl in unit.functions.items():
+            for f in fl:
+                if d is not None and unit.body(f) is not None and (f.get("id") == d.get("id") or q.split("::")[-1] == name):
+                    for x in A.walk(unit.body(f)):
+                        if x.get("kind") == "VarDecl":
+                            locals_[x["id"]] = x.get("name")
+                    return ev.call_function(unit, f, [ev.ev(a) for a in args])
         raise FD.Unknown("call to %s in the time-tag branch" % name, n)
     env = {src_id: BASE}
     env.update(outer_env or {})
